@@ -23,14 +23,15 @@
 
   LAYER 2 (PARTIAL): that every history produced by the node model under any schedule, including
   crash/restart (C07), satisfies A1–A3. Mechanised for runs of ONE node from a fresh state, over
-  the ghost list `signed` of everything it signs (Props/C04 L6, L8, L9, L10; runs of `stepIn` whose
+  the ghost list `signed` of everything it signs (Props/C04 L6, L8-L11; runs of `stepIn` whose
   timeouts are scheduled ones): A2 - every precommit for a block names the block with +2/3
   prevotes in that round, in the node's own vote sets from the moment it signs; A3 (timed form) -
   a precommit for b followed later by a prevote for something else in a later round comes with
   +2/3 prevotes for something other than b in a round in between (inclusive of the prevote's
-  round); votes are signed for the current height and round, which never go back. NOT mechanised:
-  A1 as a property of node runs (C03 proves it for the signer the node signs through, across
-  restarts), runs with crash/WAL replay (the ghost history does not survive `Wal.restart`; C07),
+  round); A1 - no two votes of the history share height, round and type (L11; across restarts it
+  is the guarantee of the signer the node signs through, C03); votes are signed for the current
+  height and round, which never go back. NOT mechanised: runs with crash/WAL replay (the ghost
+  history does not survive `Wal.restart`; C07),
   and the composition of several node models with a network into one `THistory` (that a vote set's
   +2/3 means +2/3 of the validators signed: C15 `majority_sound`). That composition is what the c01
   "net" engine checks on the real
